@@ -38,7 +38,10 @@ RULE = ('(a) all 65 536 int16 sync samples through split_sync, every run, in thr
         '(b) 1-D trains: lengths 0..48 biased to 0..3 and to events on the first/last sample; 0/1 trains as int8 (what split_sync '
         'returns) and int16/int32/int64/float64, multi-level integer trains with step thresholds at/around the level differences, '
         'analog float64/int64 traces with samples below / exactly at / above the threshold; fronts, rises, falls with default and '
-        'explicit arguments, axis -1 and 0; (c) 2-D arrays r x c (0..7 x 0..9, incl. 1 x n, n x 1, empty) along axis 0, 1, -1, -2, and '
+        'explicit arguments, axis -1 and 0; (b2) 2-3 detections in sequence (rises>falls>rises, fronts>rises>falls, ...) on the SAME array object, '
+        '1-D and 2-D, every axis, analog (thresholds 1.2 / 2.5 / 0.5 / 3.0 V; float64 / float32 / int traces; TTL-like levels with noise and samples '
+        'at / next to the threshold) and digital, each call compared with the model evaluated on the original data; whether a call left its array argument bit-identical is '
+        'recorded as a tag only, and every single call that did not is followed up by [same, opposite, same] calls on that object; (c) 2-D arrays r x c (0..7 x 0..9, incl. 1 x n, n x 1, empty) along axis 0, 1, -1, -2, and '
         'decoded (n x 16) sync matrices along axis 0; (d) synthetic recordings in a temp dir: nidq .bin + .meta derived from the nidq '
         'fixture with snsMnMaXaDw = (0..2, 0..2, 0..3, 1), three voltage ranges, analog samples planted at threshold +- 0..2 LSB, '
         'thresholds 1.2 (default) / 0.5 / 2.5 / exactly a sample value, floor percentile on/off, sample slices incl. steps, None and '
@@ -52,6 +55,8 @@ ASSUMPTIONS = [
     'front detection is checked on signed-integer and float arrays (split_sync / read_sync return int8); unsigned and boolean arrays are outside the property (np.diff wraps / xors there)',
     'integer trains stay far from the dtype limits (no wrap-around in np.diff); int8 is used for 0/1 trains only',
     'analog mode follows the docstring: the line is high when the sample is strictly greater than `step`',
+    'the model is a function of the data a caller passes in: results of several calls on one array object are compared with the model of the ORIGINAL values; a modified argument by itself is only tagged (the property does not say inputs are left untouched), its consequence on later results is what counts',
+    'float32 traces: NumPy takes a Python-float step as float32 when comparing with a float32 array; model and oracle use float32(step) there. float32 is generated for analog mode and for integer-valued digital trains only (np.diff in float32 is exact there)',
     'read_sync thresholds are positive and floor_percentile is 10 (default) or 0 (off): the code ignores any other value of floor_percentile (always the 10th percentile), which the property does not speak about',
     'np.percentile is an external component: the model receives the values it returned for the selection (float32) and reproduces the float32/float64 arithmetic around it bit for bit',
     'calibration of the analog channels (int16 -> volts) is C01\'s subject; here it is the fixed expression f32(f64(f32(x)) * gain64) with the gains taken from the Reader',
@@ -130,6 +135,14 @@ def _is_float(dtype):
 # real code, canonical answers (same text as the driver prints)
 # ---------------------------------------------------------------------------------------------
 def _impl_front_op(op, a, axis, step, analog, default_args=False):
+    """The real code on the array object `a` (NOT a copy).  Returns (answer, argument was modified by the call); the second
+    part is informational only (a tag, and a reason to follow up with more calls on the same object), never a disagreement."""
+    before = a.tobytes()
+    res = _impl_front_op_raw(op, a, axis, step, analog, default_args)
+    return res, a.tobytes() != before
+
+
+def _impl_front_op_raw(op, a, axis, step, analog, default_args=False):
     """op in fronts1/rises1/falls1/fronts2/rises2/falls2 on the real code."""
     from ibldsp import utils
     isf = _is_float(a.dtype)
@@ -159,10 +172,15 @@ def _impl_front_op(op, a, axis, step, analog, default_args=False):
         return f'err {type(e).__name__}'
 
 
+def _step_as_seen(dtype, step):
+    """NumPy's scalar rule: a Python float compared with / subtracted from a float32 array is taken as float32."""
+    return float(np.float32(step)) if np.dtype(dtype) == np.float32 else step
+
+
 def _line_front_op(op, a, axis, step, analog):
     isf = _is_float(a.dtype)
     ty = 'f' if isf else 'i'
-    st = _f64bits(step) if isf else int(step)
+    st = _f64bits(_step_as_seen(a.dtype, step)) if isf else int(step)
     flat = a.reshape(-1)
     xs = (','.join(str(_f64bits(v)) for v in flat) if isf else ','.join(str(int(v)) for v in flat)) or '-'
     if a.ndim == 1:
@@ -445,6 +463,64 @@ def _gen_2d_cases(ctx, count):
     return out
 
 
+def _gen_seq_cases(ctx, count):
+    """Two or three detections in sequence on the SAME array object (state carried through the argument)."""
+    rng = ctx.rng
+    out = []
+    for _ in range(count):
+        two_d = rng.random() < 0.4
+        analog = rng.random() < 0.6
+        if two_d:
+            r = int(rng.integers(1, 7)); c = int(rng.integers(1, 9))
+            shape = [r, c]; n = r * c
+            axes = [0, 1, -1, -2]
+        else:
+            n = _gen_len(rng, 32); shape = None
+            axes = [-1, 0]
+        if analog:
+            dtype = str(rng.choice(['float64', 'float64', 'float64', 'float32', 'int64', 'int16']))
+            if dtype.startswith('float'):
+                thr = float(rng.choice([1.2, 2.5, 1.2, 2.5, 0.5, 3.0]))
+                t = np.dtype(dtype).type
+                if rng.random() < 0.5:      # TTL-like voltages with noise
+                    lv = rng.choice([0.0, 3.3, 5.0], size=n) + rng.normal(0, 0.05, size=n)
+                    x = [float(t(v)) for v in lv]
+                else:                       # samples at / next to the threshold
+                    tt = t(thr)
+                    pool = [tt, np.nextafter(tt, t(10)), np.nextafter(tt, t(-10)), t(0.0), t(thr + 2), t(thr - 0.25), t(thr + 0.25), t(5.0)]
+                    x = [float(pool[int(i)]) for i in rng.integers(0, len(pool), size=n)]
+            else:
+                thr = int(rng.integers(1, 4))
+                x = [int(v) for v in rng.integers(thr - 2, thr + 4, size=n)]
+            mk = lambda fn: dict(fn=fn, step=thr, analog=fn != 'fronts')        # noqa
+        else:
+            dtype = str(rng.choice(['int8', 'int8', 'int32', 'float64', 'float32']))
+            if rng.random() < 0.6 or dtype == 'int8':
+                x = [int(v) for v in (np.array(_gen_binary_train(rng, n)) if n else [])]
+                s0 = 1
+            else:
+                lv = int(rng.integers(2, 5))
+                x = [int(v) for v in rng.integers(-lv, lv + 1, size=n)]
+                s0 = int(rng.integers(1, 2 * lv + 1))
+            if dtype.startswith('float'):
+                x = [float(v) for v in x]
+            mk = lambda fn: dict(fn=fn, step=(-s0 if fn == 'falls' else s0), analog=False)   # noqa
+        pat = int(rng.integers(0, 6))
+        fns = [('rises', 'falls', 'rises'), ('rises', 'falls'), ('falls', 'rises'), ('rises', 'rises'), ('fronts', 'rises', 'falls'),
+               tuple(str(v) for v in rng.choice(['rises', 'falls', 'fronts'], size=3))][pat]
+        ax0 = int(rng.choice(axes))
+        calls = []
+        for fn in fns:
+            cl = mk(fn)
+            cl['axis'] = ax0 if rng.random() < 0.7 else int(rng.choice(axes))
+            calls.append(cl)
+        case = dict(op='seq', x=x, dtype=dtype, calls=calls)
+        if shape:
+            case['shape'] = shape
+        out.append(case)
+    return out
+
+
 def _gen_slice(rng, ns):
     k = int(rng.integers(0, 9))
     if k == 8:                           # zero samples selected (past the end, or an empty range)
@@ -582,9 +658,11 @@ def _impl_ttl(case, tdir):
             warnings.simplefilter('ignore')
             sync = sr.read_sync(slice(0, case['n']))
         dig = sync[:, :16]
-        ind, sign = utils.fronts(dig, axis=0)
+        dig0 = dig.copy()
+        ind, sign = utils.fronts(dig, axis=0)     # three detections on the same decoded matrix
         r = utils.rises(dig, axis=0)
         f = utils.falls(dig, axis=0)
+        touched = dig.tobytes() != dig0.tobytes()
         # the same, line by line (1-D use)
         per_line_ok = True
         for k in range(16):
@@ -594,7 +672,7 @@ def _impl_ttl(case, tdir):
         ans = ('ok fronts=' + (';'.join(f'{int(i)},{int(j)},{int(s)}' for i, j, s in zip(ind[0], ind[1], sign)) or '-')
                + ' rises=' + (';'.join(f'{int(i)},{int(j)}' for i, j in zip(r[0], r[1])) or '-')
                + ' falls=' + (';'.join(f'{int(i)},{int(j)}' for i, j in zip(f[0], f[1])) or '-'))
-        return ans, bool(per_line_ok), sync.shape
+        return ans, bool(per_line_ok), ('touched' if touched else sync.shape)
     except Exception as e:  # noqa
         return f'err {type(e).__name__}', True, None
     finally:
@@ -607,11 +685,12 @@ def _impl_ttl(case, tdir):
 def _split_forms(vals):
     import spikeglx
     a16 = np.array(vals, dtype=np.int16)
-    res = {}
-    res['i16'] = spikeglx.split_sync(a16)
-    res['i16col'] = spikeglx.split_sync(a16.reshape(-1, 1))
-    res['u16'] = spikeglx.split_sync(a16.view(np.uint16).copy())
-    return res
+    res, pure = {}, {}
+    for name, arr in (('i16', a16.copy()), ('i16col', a16.reshape(-1, 1).copy()), ('u16', a16.view(np.uint16).copy())):
+        before = arr.tobytes()
+        res[name] = spikeglx.split_sync(arr)
+        pure[name] = arr.tobytes() == before
+    return res, pure
 
 
 def correspondence(ctx):
@@ -620,7 +699,10 @@ def correspondence(ctx):
     rng = ctx.rng
     # ---- (a) all 65 536 words -------------------------------------------------------------------
     vals = list(range(-32768, 32768))
-    forms = _split_forms(vals)
+    forms, pure = _split_forms(vals)
+    for fname, okp in pure.items():      # informational only
+        if not okp:
+            ctx.note(f'split_sync modified its argument (form {fname}); informational, results are compared on the original values')
     chunks = [(lo, min(lo + 4096, 32768)) for lo in range(-32768, 32768, 4096)]
     model = ctx.lean([f'split {lo} {hi}' for lo, hi in chunks])
     mrows = []
@@ -660,22 +742,60 @@ def correspondence(ctx):
         for op, step in (('fronts2', 1), ('rises2', 1), ('falls2', -1)):
             cases.append(dict(op=op, shape=[n, 16], x=[int(v) for v in m.reshape(-1)], dtype='int8', axis=0, step=step, analog=False,
                               default_args=False, cls='syncmatrix'))
-    lines, impl = [], []
+    lines, impl, followups = [], [], []
     for cse in cases:
         a = _np_array(cse['x'], cse['dtype'], cse.get('shape'))
         lines.append(_line_front_op(cse['op'], a, cse['axis'], cse['step'], cse['analog']))
-        impl.append(_impl_front_op(cse['op'], a, cse['axis'], cse['step'], cse['analog'], cse.get('default_args', False)))
+        ans, touched = _impl_front_op(cse['op'], a, cse['axis'], cse['step'], cse['analog'], cse.get('default_args', False))
+        impl.append(ans)
+        if touched:      # informational; followed up below by further calls on the same object (what a user would observe)
+            cse['touched'] = True
+            base = cse['op'][:-1]
+            me = dict(fn=base, step=cse['step'], analog=cse['analog'], axis=cse['axis'])
+            other = dict(fn='falls' if base != 'falls' else 'rises', step=cse['step'] if cse['analog'] else -cse['step'],
+                         analog=cse['analog'], axis=cse['axis'])
+            fu = dict(op='seq', x=cse['x'], dtype=cse['dtype'], calls=[me, other, dict(me)], followup=True)
+            if 'shape' in cse:
+                fu['shape'] = cse['shape']
+            followups.append(fu)
     model = ctx.lean(lines)
     for cse, a, b in zip(cases, impl, model):
         n = len(cse['x'])
         has_event = a not in ('ok -', 'ok ind=- sign=-')
         tags = (cse['op'], 'cls=' + cse['cls'], 'dtype=' + cse['dtype'], 'n=0' if n == 0 else 'n=1' if n == 1 else 'n=2..8' if n <= 8 else 'n>8',
                 f"axis={cse['axis']}", 'mode=analog' if cse['analog'] else 'mode=digital', 'default-args' if cse.get('default_args') else 'explicit-args',
-                'events' if has_event else 'no-events')
-        desc = {k: v for k, v in cse.items() if k != 'cls'}
+                'events' if has_event else 'no-events') + (('argument-modified(info)',) if cse.get('touched') else ())
+        desc = {k: v for k, v in cse.items() if k not in ('cls', 'touched')}
         if cse['op'].startswith('fronts'):
             b = _canon_model_fronts(b, _is_float(cse['dtype']), cse['op'] == 'fronts2')
         ctx.compare(cse['op'], desc, a, b, nontrivial=has_event, tags=tags)
+
+    # ---- (b') sequences of calls on the same array object; arguments must stay untouched ----------
+    scases = _gen_seq_cases(ctx, ctx.n(700, 8000)) + followups[:ctx.n(400, 4000)]
+    if followups:
+        ctx.note(f'{len(followups)} single calls left their array argument modified (informational); each is followed up by further '
+                 f'calls on the same object')
+    lines, impl, meta = [], [], []
+    for cse in scases:
+        a = _np_array(cse['x'], cse['dtype'], cse.get('shape'))
+        orig = a.copy()
+        sfx = '2' if a.ndim == 2 else '1'
+        for k, cl in enumerate(cse['calls']):
+            lines.append(_line_front_op(cl['fn'] + sfx, orig, cl['axis'], cl['step'], cl['analog']))   # model: the original data
+            ans, touched = _impl_front_op(cl['fn'] + sfx, a, cl['axis'], cl['step'], cl['analog'])     # code: the same object again
+            impl.append(ans)
+            meta.append((cse, k, touched))
+    model = ctx.lean(lines)
+    for (cse, k, touched), a, b in zip(meta, impl, model):
+        cl = cse['calls'][k]
+        if cl['fn'] == 'fronts':
+            b = _canon_model_fronts(b, _is_float(cse['dtype']), 'shape' in cse)
+        has_event = a not in ('ok -', 'ok ind=- sign=-')
+        ctx.compare('seq:' + cl['fn'], {kk: v for kk, v in dict(cse, call_index=k).items() if kk != 'followup'}, a, b, nontrivial=has_event,
+                    tags=('seq', f'seq-call#{k + 1}', 'seq:' + ('analog' if cl['analog'] else 'digital'), 'seq:dtype=' + cse['dtype'],
+                          'seq:2-D' if 'shape' in cse else 'seq:1-D', f"seq:thr={cl['step']}" if cl['analog'] else 'seq:step',
+                          'seq:' + '>'.join(c['fn'] for c in cse['calls']))
+                    + (('seq:argument-modified(info)',) if touched else ()) + (('seq:follow-up',) if cse.get('followup') else ()))
 
     # ---- (d) read_sync on synthetic recordings ---------------------------------------------------
     rcases = []
@@ -720,7 +840,7 @@ def correspondence(ctx):
     for cse, (a, per_line, shape), b in zip(tcases, impls, model):
         nev = a.count(',') // 2 if a.startswith('ok') else 0
         tags = ('ttl', 'ttl:' + cse['stream'], f"lines={len(cse['lines'])}", 'n=1' if cse['n'] == 1 else 'n=2..9' if cse['n'] < 10 else 'n>=10',
-                'events' if 'fronts=-' not in a else 'no-events')
+                'events' if 'fronts=-' not in a else 'no-events') + (('ttl:argument-modified(info)',) if shape == 'touched' else ())
         ctx.compare('ttl', cse, a, b, nontrivial=('fronts=-' not in a), tags=tags)
         ctx.compare('ttl-per-line', dict(cse, view='per-line'), 'consistent' if per_line else 'fronts(sync[:, k]) differs from fronts(sync, axis=0)',
                     'consistent', nontrivial=('fronts=-' not in a), tags=('ttl-per-line',))
@@ -768,30 +888,28 @@ def _expected_events(x2, axis, pred):
     return ev
 
 
-def oracle_front(case):
-    """fronts / rises / falls return exactly the change points (with polarity), in ascending (C) order."""
+def _check_call(a, orig, base, axis, step, analog, default_args=False):
+    """One call of fronts/rises/falls on the array object `a`; `orig` is a copy of the data taken before any call.
+    The result must be the change points of the ORIGINAL data (what the caller passed in before any call)."""
     from ibldsp import utils
-    op = case['op']; dtype = case['dtype']
-    a = _np_array(case['x'], dtype, case.get('shape'))
-    nd = a.ndim
-    axis = case['axis']
+    nd = orig.ndim
     ax = axis % nd
-    step = case['step']; analog = case['analog']
-    x2 = a.tolist() if nd == 2 else [[v] for v in a.tolist()]       # 1-D: a column, events along axis 0
+    st = _step_as_seen(orig.dtype, step)
+    x2 = orig.tolist() if nd == 2 else [[v] for v in orig.tolist()]       # 1-D: a column, events along axis 0
     eax = ax if nd == 2 else 0
-    base = op[:-1]
     if base == 'fronts':
-        pred = lambda p, c, d: abs(d) >= step                       # noqa
+        pred = lambda p, c, d: abs(d) >= st                       # noqa
     elif base == 'rises':
-        pred = (lambda p, c, d: (not p > step) and c > step) if analog else (lambda p, c, d: d >= step)    # noqa
+        pred = (lambda p, c, d: (not p > st) and c > st) if analog else (lambda p, c, d: d >= st)    # noqa
     else:
-        pred = (lambda p, c, d: (not p < step) and c < step) if analog else (lambda p, c, d: d <= step)    # noqa
+        pred = (lambda p, c, d: (not p < st) and c < st) if analog else (lambda p, c, d: d <= st)    # noqa
     exp = _expected_events(x2, eax, pred)
     kw = {}
-    if not case.get('default_args'):
+    if not default_args:
         kw = {'axis': axis, 'step': step}
         if base != 'fronts':
             kw['analog'] = analog
+    call = f'{base}(x' + ''.join(f', {k}={v}' for k, v in kw.items()) + ')'
     try:
         with warnings.catch_warnings():
             warnings.simplefilter('ignore')
@@ -802,23 +920,41 @@ def oracle_front(case):
                 ind = (utils.rises if base == 'rises' else utils.falls)(a, **kw)
                 sign = None
     except Exception as e:  # noqa
-        return f'{base} raised {type(e).__name__}: {e}'
+        return f'{call} raised {type(e).__name__}: {e}'
     ind = np.asarray(ind)
     if nd == 1:
         if ind.ndim != 1:
-            return f'{base} on a 1-D input returned an index array of shape {ind.shape}'
+            return f'{call} on a 1-D input returned an index array of shape {ind.shape}'
         got = [(int(i), 0) for i in ind]
     else:
         if ind.ndim != 2 or ind.shape[0] != 2:
-            return f'{base} on a 2-D input returned an index array of shape {ind.shape}'
+            return f'{call} on a 2-D input returned an index array of shape {ind.shape}'
         got = [(int(i), int(j)) for i, j in zip(ind[0], ind[1])]
     exp_pos = [(i, j) for i, j, _ in exp]
     if got != exp_pos:
-        return f'{base} returned positions {got[:12]}, the change points are {exp_pos[:12]}'
+        return f'{call} returned positions {got[:12]}, the change points of the trace are {exp_pos[:12]}'
     if sign is not None:
         exp_s = [_pol(d) for _, _, d in exp]
         if [_pol(v) for v in sign] != exp_s:
-            return f'fronts returned polarities {sign[:12]}, the changes have directions {exp_s[:12]}'
+            return f'{call} returned polarities {sign[:12]}, the changes have directions {exp_s[:12]}'
+    return None
+
+
+def oracle_front(case):
+    """fronts / rises / falls return exactly the change points (with polarity), in ascending (C) order."""
+    a = _np_array(case['x'], case['dtype'], case.get('shape'))
+    return _check_call(a, a.copy(), case['op'][:-1], case['axis'], case['step'], case['analog'], case.get('default_args', False))
+
+
+def oracle_seq(case):
+    """Several detections in sequence on the SAME array object: each must return the change points of the original
+    trace the caller holds (a user calls rises(x) and then falls(x) on one trace and expects both event sets)."""
+    a = _np_array(case['x'], case['dtype'], case.get('shape'))
+    orig = a.copy()
+    for n, c in enumerate(case['calls']):
+        r = _check_call(a, orig, c['fn'], c['axis'], c['step'], c['analog'])
+        if r:
+            return f'call {n + 1} of {len(case["calls"])} on the same array: ' + r
     return None
 
 
@@ -898,7 +1034,7 @@ def oracle_ttl(case):
                 try:
                     sync = sr.read_sync(slice(0, case['n']))
                     dig = sync[:, :16]
-                    ind, sign = utils.fronts(dig, axis=0)
+                    ind, sign = utils.fronts(dig, axis=0)     # three detections on the same decoded matrix
                     r = utils.rises(dig, axis=0); f = utils.falls(dig, axis=0)
                 except Exception as e:  # noqa
                     return f'raised {type(e).__name__}: {e}'
@@ -935,6 +1071,8 @@ def oracle(case):
         return oracle_split(int(case['x']), case.get('form', 'i16'))
     if op in ('fronts1', 'rises1', 'falls1', 'fronts2', 'rises2', 'falls2'):
         return oracle_front(case)
+    if op == 'seq':
+        return oracle_seq(case)
     if op == 'readsync':
         return oracle_readsync(case)
     if op == 'ttl':
@@ -950,11 +1088,13 @@ def _size(case):
         return (3, case['ns'] * (sum(case['cfg']) if case['stream'] == 'nidq' else 400))
     if op == 'ttl':
         return (4, case['n'] * (1 + len(case.get('lines', []))))
+    if op == 'seq':
+        return (1 if 'shape' not in case else 2, len(case['x']) + len(case['calls']))
     return (1 if op.endswith('1') else 2, len(case['x']))
 
 
 def _strip(case):
-    return {k: v for k, v in case.items() if k not in ('view', 'cls')}
+    return {k: v for k, v in case.items() if k not in ('view', 'cls', 'call_index')}
 
 
 def _small_candidates(ctx):
@@ -973,6 +1113,20 @@ def _small_candidates(ctx):
             c.append(dict(op='rises1', x=[float(v) for v in vals], dtype='float64', axis=-1, step=1.0, analog=True, default_args=False))
             c.append(dict(op='falls1', x=[float(v) for v in vals], dtype='float64', axis=-1, step=1.0, analog=True, default_args=False))
             c.append(dict(op='fronts1', x=list(vals), dtype='int64', axis=-1, step=2, analog=False, default_args=False))
+    for n in range(1, 4):                       # sequences of calls on the same array object
+        for vals in itertools.product((0.0, 2.0, 3.0), repeat=n):
+            for thr in (1.2, 2.5):
+                for fns in (('rises', 'falls'), ('rises', 'rises'), ('falls', 'rises'), ('fronts', 'rises')):
+                    c.append(dict(op='seq', x=list(vals), dtype='float64',
+                                  calls=[dict(fn=f, step=thr, analog=(f != 'fronts'), axis=-1) for f in fns]))
+        for bits in itertools.product((0, 1), repeat=n):
+            c.append(dict(op='seq', x=list(bits), dtype='int8',
+                          calls=[dict(fn='rises', step=1, analog=False, axis=-1), dict(fn='falls', step=-1, analog=False, axis=-1),
+                                 dict(fn='fronts', step=1, analog=False, axis=-1)]))
+    for bits in itertools.product((0.0, 3.0), repeat=4):
+        for axis in (0, 1):
+            c.append(dict(op='seq', x=list(bits), dtype='float64', shape=[2, 2],
+                          calls=[dict(fn='rises', step=1.2, analog=True, axis=axis), dict(fn='falls', step=1.2, analog=True, axis=axis)]))
     for (r, cc) in ((1, 2), (2, 1), (2, 2), (2, 3), (3, 2)):
         for bits in itertools.product((0, 1), repeat=r * cc):
             for axis in (0, 1, -1, -2):
@@ -1019,6 +1173,10 @@ def search(ctx, reasons):
     if best is not None and best[0]['op'] == 'split':
         for case in small:
             if case['op'] == 'split' and case['x'] != 'all':
+                consider(case)
+    if best is not None and best[0]['op'] == 'seq':
+        for case in small:
+            if case['op'] == 'seq':
                 consider(case)
     if best is None or _size(best[0]) > (1, 6):
         for case in small:
